@@ -113,3 +113,20 @@ Proof.
     + repeat split; congruence.
 Qed.
 Print Assumptions operate_correct.
+
+(* in terms of the abstract map of C01: an expression without '=' changes nothing *)
+From TL Require Import Proofs.Table_history.
+Corollary operate_abs e t d :
+  Inv t -> coords_ok t -> Table.size t <> 0%nat -> fresh_from t 0 -> has_af t out_name = false ->
+  (forall m, In m (names t) -> is_temp m = false) ->
+  wf e -> wfe t e -> (0 < minclass e)%nat -> clean (print e) = true -> sem t e = Ok d ->
+  exists t3 r, operate_str t (print e) = Ok (t3, r) /\ Inv t3 /\ abs t3 = abs t /\
+               xs t3 = xs t /\ ys t3 = ys t /\ zs t3 = zs t /\ ts t3 = ts t.
+Proof.
+  intros HI Hco Hs Hf Ho Hnt Hwf Hwfe Hm Hc Hsem.
+  destruct (operate_correct e t d HI Hco Hs Hf Ho Hnt Hwf Hwfe Hm Hc Hsem) as [t3 [E [HI3 [Hn [Hg [Hx [Hy [Hz Ht]]]]]]]].
+  exists t3, (Some (dcol (Table.size t) d)). split; [exact E|]. split; [exact HI3|]. split; [|auto].
+  unfold abs. rewrite Hn. apply map_ext_in. intros m Hm'. unfold col_of. rewrite Hg; [reflexivity|].
+  apply has_af_names. left. exact Hm'.
+Qed.
+Print Assumptions operate_abs.
